@@ -1069,6 +1069,10 @@ class DataFieldRecordArray(
         if data is None:
             data = dict()
 
+        if isinstance(data, DataFieldRecordArray):
+            # The data of a DataFieldRecordArray instance always gets copied.
+            copy = True
+
         if keep_fields is not None:
             if isinstance(keep_fields, str):
                 keep_fields = [keep_fields]
